@@ -181,7 +181,10 @@ def main():
             # the single probed function must FAIL its `false` postcondition clause
             # the twin differs from the verified unit only by the probe, so ANY failed postcondition in it shows that the
             # function's body is reachable under its preconditions (with --multiple-errors 0 Verus may name another clause)
-            probed = [f for f in r['failures'] if f['kind'] == 'post']
+            # (ANY failed obligation — also a callee's precondition or an overflow check — needs a model of the function's
+            # assumptions, so it shows they are satisfiable; a first version counted only postcondition failures and called a
+            # twin whose single reported error was a callee precondition 'vacuous': corrected)
+            probed = list(r['failures'])
             target = os.path.basename(r.get('gen_file', '?'))
             if probed:
                 vacuity_report.append({'twin': target, 'function': probed[0]['function'], 'probe_failed_as_required': True})
